@@ -434,8 +434,8 @@ func c13(args []string) int {
 	rightCAPEM = right.pem
 
 	// ---------------- part A: selection ----------------
-	sel := run.NewShard(c13Header, "sel_case", "sel_mismatches tls_keys_lowered tls_alpn_white")
-	mat := run.NewShard(c13Header, "match_case", "match_mismatches tls_keys_lowered tls_alpn_white")
+	sel := run.NewShard(c13Header, "sel_case", "sel_mismatches tls_keys_lowered tls_one_mixed_set tls_alpn_white")
+	mat := run.NewShard(c13Header, "match_case", "match_mismatches tls_keys_lowered tls_one_mixed_set tls_alpn_white")
 	readings := allReadings()
 	nL := run.N(160, 2500)
 	perL := run.N(12, 30)
@@ -693,7 +693,7 @@ func c13hs(args []string) int {
 func emitHandshakeResults(run *Run, res []hsResult) {
 	shards := map[string]*Shard{}
 	typ := map[string][2]string{
-		"sel":  {"sel_case", "sel_mismatches tls_keys_lowered tls_alpn_white"},
+		"sel":  {"sel_case", "sel_mismatches tls_keys_lowered tls_one_mixed_set tls_alpn_white"},
 		"auth": {"auth_case", "auth_mismatches"},
 		"up":   {"up_case", "up_mismatches"},
 		"insp": {"insp_case", "insp_mismatches"},
